@@ -524,4 +524,88 @@ theorem cryptBf_refeed {D : Digests} {p s H : Bytes} (h : cryptBf D p s = .ok H)
     rw [List.append_assoc]; exact List.take_left' (by simp; omega)
   rw [e2]
 
+
+/-! ### prefix-locality of `takeWhile` and of yescrypt's `decode64_uint32` (used by the sunmd5 / yescrypt round trips) -/
+
+
+/-- `takeWhile` only looks at the list up to the first failing element -/
+theorem takeWhile_take_append {α} (p : α → Bool) : ∀ (l : List α) (m : Nat) (z : List α),
+    (l.takeWhile p).length < m → m ≤ l.length → (l.take m ++ z).takeWhile p = l.takeWhile p := by
+  intro l
+  induction l with
+  | nil => intro m z h1 h2; simp at h2; omega
+  | cons x xs ih =>
+    intro m z h1 h2
+    cases m with
+    | zero => omega
+    | succ m =>
+      simp only [List.take_succ_cons, List.cons_append, List.takeWhile_cons]
+      by_cases hx : p x = true
+      · simp only [hx, if_true]
+        simp only [List.takeWhile_cons, hx, if_true, List.length_cons] at h1
+        rw [ih m z (by omega) (by simpa using h2)]
+      · simp [hx]
+
+theorem takeWhile_lt_of_stop {α} (p : α → Bool) (l : List α) (i : Nat) (hi : i < l.length) (hs : p (l[i]) = false)
+    : (l.takeWhile p).length ≤ i := by
+  induction l generalizing i with
+  | nil => simp at hi
+  | cons x xs ih =>
+    simp only [List.takeWhile_cons]
+    by_cases hx : p x = true
+    · simp only [hx, if_true, List.length_cons]
+      cases i with
+      | zero => simp [hx] at hs
+      | succ i =>
+        have := ih i (by simpa using hi) (by simpa using hs); omega
+    · simp [hx]
+
+
+theorem yDec32_tail_congr (s s' : Bytes) : ∀ (k j bits dst : Nat), (∀ x, j ≤ x → x < j + k → cat s x = cat s' x) →
+    yDec32.tail s k j bits dst = yDec32.tail s' k j bits dst := by
+  intro k
+  induction k with
+  | zero => intro j bits dst _; simp [yDec32.tail]
+  | succ k ih =>
+    intro j bits dst h
+    simp only [yDec32.tail]
+    rw [h j (Nat.le_refl _) (by omega)]
+    split
+    · rfl
+    · exact ih _ _ _ (fun x h1 h2 => h x (by omega) (by omega))
+
+theorem walk_chars_ge (c : Nat) : ∀ fuel dst start end_ chars bits, chars ≤ (yDec32.walk c fuel dst start end_ chars bits).2.2.1 := by
+  intro fuel
+  induction fuel with
+  | zero => intro dst start end_ chars bits; simp [yDec32.walk]
+  | succ f ih =>
+    intro dst start end_ chars bits
+    simp only [yDec32.walk]
+    split
+    · have := ih (dst + (end_ + 1 - start) * 2 ^ bits) (end_ + 1) (end_ + 1 + (62 - end_) / 2) (chars + 1) (bits + 6); omega
+    · simp
+
+/-- the characters a successful `decode64_uint32` consumed determine its result -/
+theorem yDec32_congr (s s' : Bytes) (i min v n : Nat) (h : yDec32 s i min = some (v, n))
+    (hag : ∀ x, i ≤ x → x < i + n → cat s x = cat s' x) : yDec32 s' i min = some (v, n) := by
+  unfold yDec32 at h ⊢
+  simp only [] at h ⊢
+  split at h; · cases h
+  rename_i hc
+  generalize hw : yDec32.walk (yAtoi (cat s i)) 8 min 0 47 1 0 = w at h
+  obtain ⟨dst, start, chars, bits⟩ := w
+  have hch : 1 ≤ chars := by
+    have := walk_chars_ge (yAtoi (cat s i)) 8 min 0 47 1 0; rw [hw] at this; exact this
+  simp only [] at h
+  split at h; · cases h
+  rename_i v0 hv0
+  simp only [Option.some.injEq, Prod.mk.injEq] at h
+  obtain ⟨hv, hn⟩ := h
+  subst hn
+  have e0 : cat s' i = cat s i := (hag i (Nat.le_refl _) (by omega)).symm
+  rw [e0, if_neg hc, hw]
+  simp only []
+  rw [← yDec32_tail_congr s s' (chars - 1) (i + 1) bits _ (fun x h1 h2 => hag x (by omega) (by omega)), hv0]
+  simp [hv]
+
 end Xc
